@@ -176,7 +176,8 @@ Record c14_obs := mkObs {
 Definition qmax_list (d : Q) (l : list Q) : Q := fold_left (fun a t => if qltb a t then t else a) l d.
 Definition qmin_list (d : Q) (l : list Q) : Q := fold_left (fun a t => if qltb t a then t else a) l d.
 (* half a unit of the last reported decimal (graph points are rounded to graph_DECIMAL_PLACES) *)
-Definition round_slack : Q := 1 # (2 * Pos.pow 10 (Pos.of_nat graph_DECIMAL_PLACES)).
+(* ... plus 1e-9: a reported value is the double nearest to the rounded decimal, which may lie a few 1e-15 outside the exact bound *)
+Definition round_slack : Q := (1 # (2 * Pos.pow 10 (Pos.of_nat graph_DECIMAL_PLACES))) + (1 # 1000000000).
 (* widening: largest stream contribution + largest utility contribution (default utilities use DT_CONT) + phase-change glide
    + latent width of an isothermal stream + display rounding *)
 Definition widening (x : c14_in) : Q :=
